@@ -92,7 +92,10 @@ def augment(model):
     model["types"].append(
         {"kind": "section", "name": "sdtholder", "keytype": None,
          "datatype": None, "extends": None, "implements": None,
-         "children": [{"kind": "multisection", "name": "*", "type": "sdt",
+         "children": [{"kind": "section", "name": "solo", "type": "sdt",
+                       "required": False, "handler": None,
+                       "attribute": "solo_sdt"},
+                      {"kind": "multisection", "name": "*", "type": "sdt",
                        "required": False, "handler": None,
                        "attribute": "inner_sdt"}]})
     model["children"].append(
@@ -370,7 +373,13 @@ def _inject_in(rng, res, root, node, cont, path, kind):
         # revealed when the holder closes
         if cont.name != "sdtholder":
             return None
-        bad = texts.mknode("sdt", rng.choice([None, "sd1"]), "pair")
+        # into the multi slot, or (named 'solo') into the single slot
+        nm = rng.choice([None, "sd1", "solo", "solo"])
+        if nm == "solo" and any(x[0] == "s" and
+                                (x[1]["name"] or "").lower() == "solo"
+                                for x in node["items"]):
+            nm = "sd1"
+        bad = texts.mknode("sdt", nm, "pair")
         bad["items"].append(["k", "marker", "bad"])
         it = ["s", bad]
         _ins_at(rng, node, it)
